@@ -86,6 +86,18 @@ Theorem path_split_secp :
     obind (s_derive_priv x l1) (fun y => s_derive_pub (s_neuter_prv y) l2).
 Proof. exact Bip32Lib.path_split_secp. Qed.
 
+(* for the library itself: a non-hardened path derived from a private key and from its public() version *)
+Theorem lib_public_private_agree :
+  group_laws pt_add None pt_neg pt_mul secp_G secp_n ->
+  forall x path items Y1 Y2,
+    xc x <> [] ->
+    lib_parse_path path = Some (false, items) ->
+    Forall (fun i => 0 <= i < two31) (snd (sem (false, items))) ->
+    lib_subkey_for_path (XPrv x) path = Some Y1 ->
+    lib_subkey_for_path (lib_public (XPrv x)) path = Some Y2 ->
+    lib_public Y1 = Y2.
+Proof. exact Bip32Lib.lib_public_private_agree. Qed.
+
 (* the premise is satisfiable (Z/2Z), i.e. the abstract theorems are not vacuous *)
 Example group_laws_inhabited : group_laws xorb false (fun b => b) z2_smul true 2.
 Proof. exact z2_group_laws. Qed.
@@ -254,6 +266,7 @@ Print Assumptions path_split.
 Print Assumptions path_split_any.
 Print Assumptions ckd_commute_secp.
 Print Assumptions path_split_secp.
+Print Assumptions lib_public_private_agree.
 Print Assumptions ckd_metadata.
 Print Assumptions lib_ckd_metadata.
 Print Assumptions lib_child_private_is_ckd.
